@@ -4,6 +4,7 @@ import (
 	"fmt"
 
 	meta "github.com/nspcc-dev/neofs-node/pkg/local_object_storage/metabase"
+	"github.com/nspcc-dev/neofs-node/pkg/util/verifhook"
 	cid "github.com/nspcc-dev/neofs-sdk-go/container/id"
 	oid "github.com/nspcc-dev/neofs-sdk-go/object/id"
 	"go.uber.org/zap"
@@ -36,6 +37,7 @@ func (s *Shard) MarkGarbage(cnr cid.ID, addrs []oid.ID, mark meta.GarbageMark) e
 
 		return fmt.Errorf("metabase inhume: %w", err)
 	}
+	verifhook.Point("shard.mark.afterMeta")
 
 	cnrStr := cnr.EncodeToString()
 
@@ -46,6 +48,7 @@ func (s *Shard) MarkGarbage(cnr cid.ID, addrs []oid.ID, mark meta.GarbageMark) e
 	if mark == meta.GarbageMarkDefault && s.hasWriteCache() {
 		for i := range addrs {
 			_ = s.writeCache.Delete(oid.NewAddress(cnr, addrs[i]))
+			verifhook.Point("shard.mark.afterCache")
 		}
 	}
 
